@@ -394,6 +394,17 @@ func checkC03Inner(c C03Case) *ev.Failure {
 		if c.Transport == "loop" && len(replies()) != 0 {
 			return ev.Failf("oneway-replied", "%s: a successful oneway call produced a reply frame%s", what, ctxText())
 		}
+	}
+	// a two-way call is answered by exactly one message (observable where the whole reply is at hand)
+	if !m.Oneway && c.Transport == "loop" {
+		if rs := replies(); len(rs) > 0 {
+			if n, err := rt.CountReplyMessages(c.Proto, rs[len(rs)-1]); err != nil || n != 1 {
+				return ev.Failf("reply-count", "%s (handler outcome %q): the server answered with %d messages (%v), want exactly one%s", what, c.Outcome, n, err, ctxText())
+			}
+		}
+	}
+	switch {
+	case m.Oneway:
 	case c.Outcome == "return":
 		if callErr != nil {
 			return ev.Failf("unexpected-error", "%s: caller got %T %v%s", what, callErr, callErr, ctxText())
